@@ -374,7 +374,11 @@ def get_significant_numbers(string):
     >>> get_significant_numbers("0")
     ()
     """
-    numbers = [digits.lstrip("0") for digits in re.findall(r"[0-9]+", string or "")]
+    # any decimal digit counts, as in get_digit_prefix()
+    numbers = [
+        "".join(str(int(digit)) for digit in digits).lstrip("0")
+        for digits in re.findall(r"\d+", string or "")
+    ]
     while numbers and not numbers[-1]:
         numbers.pop()
     return tuple(numbers)
